@@ -69,6 +69,14 @@ CHECKS = {
          "Every cell of {cdr-list, car-list, nested vectors, quote chain, closure chain, continuation chain, non-tail recursion, nested call expression, nested let expression} x {read, quote-evaluate, build at run time, keep live across a forced collection, equal?, write/convert to result, drop, evaluate} that makes sense (45 cells) is run at depth 10^3, 10^4 and 10^5 on an 8 MiB main thread and on a 2 MiB thread in the checked build (quick: 340 children incl. 48 random mixed-direction shapes) and additionally in the plain release build with 2000 random shapes (thorough: ~2600 children). A child that dies by a signal in an announced phase is a violation of the cell (direction, operation of that phase); normal exit with a result or a reported error is required. Exploration: 17 cells (long proper lists except quote-evaluate and drop, non-tail recursion, dropping/printing closure and continuation chains, shapes with fewer than 1000 non-cdr levels) hold at every depth; the other cells abort from 10^4 (2 MiB) or 10^5 levels and are recorded as known findings per cell, still executed and reported, but unable to raise a violation.",
          "Signatures carry no depth/thread/profile, so a listed cell would not report a new, shallower recursion in the same operation. Allocation failure (8 GiB address-space limit) and timeouts are inconclusive. Quick leaves expr-*|eval at 10^4 on the main thread (about a minute of CPU each, compile time grows faster than n^2) to the thorough tier. A panic inside a scenario is reported under its own signature kind; an Err is accepted as 'reports an error'.",
          "DESIGN.md section 4, C19"),
+ "C14": ("proptest-driven operation sequences (choice-byte decoder) against a reference store model with object identity; full content read-back of every pool object and mutation-probe identity audits after every operation; structural (step-deletion) minimisation",
+         "Operation sequences (2..8 object definitions, then <= 12 operations) over a pool of <= 8 lists (proper, improper, shared tails), vectors (empty, nested) and scalars; every procedure of the statement, indices from -1..len+1 and far beyond. After each operation the result (value / must-error / unspecified), the entire contents of all pool objects and the identity of every shared object are compared with the model. Exploration: 32k sequences (quick) / 960k (thorough); holds on everything generated except the listed known findings, nothing beyond.",
+         "Trusts the harness' store model (mwv-core/src/store.rs, written from R7RS 6.4/6.8/6.1). Known-finding triggers are generated at a 1-in-8 probe rate and a sequence is not compared further after a tolerated state-changing step (counted in evidence: seq:cut-short-after-known-finding). vector-copy's end argument, wrong-type container arguments and cyclic data are outside the domain.",
+         "DESIGN.md section 4, C14"),
+ "C15": ("proptest-driven operation sequences against a Vec<char> string store model with identity; metamorphic relation for case-insensitive predicates (SUT's own fold); Rust std Unicode tables for case conversion and character predicates",
+         "Operation sequences (2..5 string definitions, some aliased, then <= 10 operations) over strings mixing 1-, 2-, 3-, 4-byte characters and the empty string; start/end/index from -1..len+1 and far beyond, fill/set characters of every width, integer->char across the surrogate range, above 0x10FFFF, negative and huge. After each operation the result and every pool string are compared with the model; invalid indices/ranges/scalar values must be reported as errors. Exploration: 64k sequences (quick) / 1.9M (thorough); holds on everything generated except the listed known findings, nothing beyond.",
+         "Trusted base: Rust std Unicode tables (stated in the evidence); characters whose case mapping or folding std cannot decide one-to-one are not checked for that operation. Known-finding triggers are generated at a 1-in-8 probe rate. string-fill! with start = length keeps its end argument small (the SUT would allocate end-start bytes there: see the known finding).",
+         "DESIGN.md section 4, C15"),
  "C20": ("exhaustive enumeration over a lexeme alphabet + proptest-driven Unicode token soup against a reference bracket matcher",
          "Every string of <=5 (quick) / <=7 (thorough) lexemes over the 11-lexeme alphabet with every cursor position is checked against the harness' own tokenizer and partner search (finite space enumerated completely), plus random Unicode token soup with random cursors. Exploration: holds on everything enumerated/generated, nothing beyond.",
          "Trusts the harness' reference tokenizer/partner search; random texts use the SUT scanner for token spans (checked by C11).",
